@@ -70,7 +70,7 @@ def strat_pipeline(draw, tier, mode):
     ncores = draw(st.one_of(st.integers(2, 6), st.integers(2, 6),
                             st.integers(1, 18)))
     if mode == "system-info":
-        resources = {"Cores": ncores + 1,
+        resources = {"Cores": min(18, ncores + 1),
                      "SDRAM": draw(st.integers(20, 100)),
                      "SRAM": draw(st.integers(0, 50))}
     else:
